@@ -235,7 +235,7 @@ def view (st : RNState) : String :=
   let lte := match r.leadTransferee with
     | some x => toString x
     | none => "-"
-  let s := s!" | S t={r.term} v={r.vote} r={r.state.toNat} l={r.leaderId} c={l.committed} a={l.applied} p={l.persisted} li={l.lastIndex} lt={lt} fi={l.firstIndex} pci={r.pendingConfIndex} lte={lte} ee={r.electionElapsed} he={r.heartbeatElapsed} rt={r.randomizedElectionTimeout} pr={b01 r.promotable} prs={r.pendingRequestSnapshot} us={r.uncommittedSize} lim={l.maxApplyUnpersistedLogLimit} prio={r.priority} uo={l.unstable.offset} ul={l.unstable.entries.length} usn={usn} sf={l.store.firstIndex} sl={l.store.lastIndex} gc={b01 r.prs.groupCommit} mcs={r.maxCommittedSizePerReady} mi={r.prs.maxInflight} in={commaList r.prs.conf.incoming} out={commaList r.prs.conf.outgoing}"
+  let s := s!" | S t={r.term} v={r.vote} r={r.state.toNat} l={r.leaderId} c={l.committed} a={l.applied} p={l.persisted} li={l.lastIndex} lt={lt} fi={l.firstIndex} pci={r.pendingConfIndex} lte={lte} ee={r.electionElapsed} he={r.heartbeatElapsed} rt={r.randomizedElectionTimeout} pr={b01 r.promotable} prs={r.pendingRequestSnapshot} us={r.uncommittedSize} lim={l.maxApplyUnpersistedLogLimit} prio={r.priority} uo={l.unstable.offset} ul={l.unstable.entries.length} usn={usn} sf={l.store.firstIndex} sl={l.store.lastIndex} shs={l.store.hardState.term},{l.store.hardState.vote},{l.store.hardState.commit} gc={b01 r.prs.groupCommit} mcs={r.maxCommittedSizePerReady} mi={r.prs.maxInflight} in={commaList r.prs.conf.incoming} out={commaList r.prs.conf.outgoing}"
   let rs := r.readStates.foldl (fun acc x => acc ++ s!" {x.index}:{hex x.requestCtx}") s!" | RS {r.readStates.length}"
   let ro := r.readOnly
   let roS := ro.readIndexQueue.foldl (fun acc ctx =>
